@@ -10,7 +10,7 @@ from vlib.harness import PropertyViolation, run_property
 PROPERTY_ID = "C19"
 LEVEL = "fault_enumeration"
 RULE = (
-    "Hypothesis generates (shape, attached? (to a project holding 0-4 modules of mixed types that may have been saved before and between the edits), initial cells, history of 1..4 bulk edits through set_via_fn / set_via_gen with generated notes, "
+    "Hypothesis generates (shape, attached? (to a project holding 0-4 modules of mixed types that may have been saved before and between the edits), initial cells, history of 1..4 bulk edits through set_via_fn / set_via_gen with generated notes (fresh ones, or the pattern's own notes moved to other cells: rotation / swaps), "
     "generated yield subsets and orders, optional scribbling on the scratch array); for the last edit of every history the failure position is "
     "enumerated completely (callable raises at call index f for every f in 0..cells; generator raises after yield j for every j in 0..yields) "
     "when the pattern has <= 256 cells (otherwise ends, middle and a stride). distinct = (history, failure position); histories may also fail half-way at generated points before continuing on the same object, and every enumerated failure of the last edit is followed by a further successful edit; non-trivial = failure at "
@@ -21,7 +21,7 @@ ASSUMPTIONS = [
     "after a failed edit the contents (cell tuples, raw_data) are claimed unchanged; identity of the internal list is not claimed",
 ]
 REQUIRED_LABELS = {
-    "quick": ["fn_success", "gen_success", "fn_fail_interior", "gen_fail_interior", "attached", "detached", "second_edit", "scribble", "failure_mid_history", "follow_up_after_failure", "project_saved_before_edit"],
+    "quick": ["fn_success", "gen_success", "fn_fail_interior", "gen_fail_interior", "attached", "detached", "second_edit", "scribble", "failure_mid_history", "follow_up_after_failure", "project_saved_before_edit", "moved_existing_notes"],
     "thorough": ["fn_success", "gen_success", "fn_fail_interior", "gen_fail_interior", "attached", "detached", "second_edit", "scribble"],
 }
 
@@ -49,8 +49,19 @@ def case_strategy(draw, max_tracks, max_lines):
     initial = draw(st.lists(st.tuples(st.integers(0, ncells - 1), cell).map(list), max_size=6))
     edits = []
     for _ in range(draw(st.integers(1, 4))):
-        kind = draw(st.sampled_from(["fn", "gen"]))
-        if kind == "fn":
+        kind = draw(st.sampled_from(["fn", "gen", "fn_rotate", "gen_swap"]))
+        if kind == "fn_rotate":
+            # the callable returns the note objects that already live in the pattern, rotated by k cells
+            edits.append({"kind": "fn_rotate", "shift": draw(st.integers(1, max(1, ncells - 1))), "fail_at": None})
+        elif kind == "gen_swap":
+            pairs = draw(st.lists(st.tuples(st.integers(0, ncells - 1), st.integers(0, ncells - 1)).map(list), min_size=1, max_size=3, unique_by=lambda p: frozenset(p)))
+            used, clean = set(), []
+            for a, b in pairs:
+                if a != b and a not in used and b not in used:
+                    clean.append([a, b])
+                    used.update((a, b))
+            edits.append({"kind": "gen_swap", "pairs": clean, "fail_at": None})
+        elif kind == "fn":
             # a small palette of cells cycled over the pattern keeps cases small and shrinkable
             palette = draw(st.lists(cell, min_size=1, max_size=5))
             edits.append({"kind": "fn", "palette": palette, "offset": draw(st.integers(0, 7)), "fail_at": draw(st.one_of(st.none(), st.none(), st.integers(0, ncells - 1)))})
@@ -92,6 +103,24 @@ def apply_edit(pattern, edit, fail_at):
     """Run one bulk edit.  fail_at None = let it complete.  Returns expected cells on success."""
     tracks, lines = pattern.tracks, pattern.lines
     before = cells_of(pattern)
+    if edit["kind"] == "fn_rotate":
+        n = tracks * lines
+        k = edit["shift"] % n
+        flat = [pattern.data[i // tracks][i % tracks] for i in range(n)]
+        pattern.set_via_fn(lambda p, line, track: flat[(line * tracks + track + k) % n])
+        return [before[(i + k) % n] for i in range(n)]
+    if edit["kind"] == "gen_swap":
+        def swap_gen(p, new):
+            for a, b in edit["pairs"]:
+                na, nb = p.data[a // tracks][a % tracks], p.data[b // tracks][b % tracks]
+                yield a // tracks, a % tracks, nb
+                yield b // tracks, b % tracks, na
+
+        pattern.set_via_gen(swap_gen)
+        exp = list(before)
+        for a, b in edit["pairs"]:
+            exp[a], exp[b] = before[b], before[a]
+        return exp
     if edit["kind"] == "fn":
         pal = edit["palette"]
         off = edit["offset"]
@@ -185,6 +214,21 @@ def run_case(ctx, case, only_fail_at=None):
     edits = case["edits"]
     last = edits[-1]
     # failure positions for the last edit: complete when the pattern is small
+    if last["kind"] in ("fn_rotate", "gen_swap"):
+        # moves have no injected failure; run them as a completed last edit
+        pattern, project = build(case)
+        for e in edits:
+            prev = cells_of(pattern)
+            try:
+                exp = apply_edit(pattern, e, e.get("fail_at"))
+            except Boom:
+                exp = prev
+            if cells_of(pattern) != exp:
+                raise PropertyViolation("C19.success.contents", "edit %s: cells differ from what was supplied" % e["kind"])
+            check_ownership(pattern, project, "after %s" % e["kind"])
+        labels.add("moved_existing_notes")
+        ctx.case()
+        return labels, ["move"]
     n_pos = ncells if last["kind"] == "fn" else len(last["yields"]) + 1
     pos_list = positions(n_pos, ncells <= 256) if only_fail_at is None else [only_fail_at]
     runs = [None] + pos_list if only_fail_at is None else pos_list
@@ -213,6 +257,8 @@ def run_case(ctx, case, only_fail_at=None):
                 )
             check_ownership(pattern, project, "after edit %d (%s)" % (ei, e["kind"]))
             labels.add("second_edit")
+            if e["kind"] in ("fn_rotate", "gen_swap"):
+                labels.add("moved_existing_notes")
             if project is not None and case.get("save_first") and ei % 2 == 0:
                 project.read()
         before_cells = cells_of(pattern)
